@@ -153,8 +153,11 @@ end
 def Ctx.emptyOf (C : Ctx) (ty : Ty) : AS := freezeAS (C.init ty)
 
 /-- a dictionary struct reached through a getter: a readonly value ("Use Set<F>() to modify it").
-    Modifying it in place is legal Go while it is not frozen, but it is not modelled: the marks
-    inside dictionary structs are not part of the invariant (they are never read by an encoder). -/
+    Modifying it in place is legal Go while it is not frozen, but it is not modelled (navigation into
+    it is refused). No encoder reads the marks inside a dictionary struct (it is written as a RefNum or
+    in full); the invariant still constrains those of an OWNED one - they are up-closed
+    (Proofs/ApiInv.lean, `UC`): it is a copy destination, a change inside it must reach its parent, and
+    `setUnmodifiedRecursively`, which descends below set bits only, must clear them. -/
 def Ctx.isDictNode (C : Ctx) : AS → Bool
   | .struct n _ _ _ _ => C.isDictName n
   | _ => false
@@ -505,6 +508,11 @@ def copy0 (E : CopyEnv) : AS → AS → AS × Up
   | dst, .struct _ _ sp _ sfs =>
     match dst with
     | .struct n m p fr dfs =>
+      -- a shared (frozen dictionary) struct is never a copy destination: the struct templates replace
+      -- it first (`unshare`), and a setter on a frozen struct panics. Fail-safe: nothing changes, the
+      -- parent is told (reached only by states Go's type system excludes and by the copies of
+      -- multimap / oneof members that are dictionary structs, which the tie does not cover).
+      if fr && E.C.isDictName n then (dst, .direct) else
       let fds := fieldsOf E.C n
       let (dfs', m', p', up) := copyFields E fds 0 0 sp dfs sfs m p
       (.struct n m' p' fr dfs', up)
@@ -630,19 +638,25 @@ def copyPairs (E : CopyEnv) (kPrim vPrim : Bool) : Nat → List (AS × AS) → L
 termination_by structural _ _ sps _ _ => sps
 end
 
+/-- `new(T); init(parent); copy<T>(new, shared); setUnmodifiedRecursively()`: an owned value that starts
+    as the shared one, without marks; the signal is the one the copy sent (the new value is linked to
+    its parent before the copy). The templates rely on `copy<T>` reproducing its source. Here that is
+    CHECKED (`eqv` = `Cmp<T> == 0`): should the copy not compare equal to the shared value, the new
+    value is marked in full and the parent is told - a branch that is dead whenever `copy<T>` is
+    functionally correct (it is what the templates assume; states of the wrong Go type reach it). -/
+def unshareWith (C : Ctx) (cp : AS → AS → AS × Up) (ty : Ty) (sh : AS) : AS × Up :=
+  let r := cp (C.init ty) sh
+  if eqv C sh (setUnmodRec r.1) then (setUnmodRec r.1, r.2) else (setModRec r.1, .direct)
+
 /-- `copy<T>` with the shared-destination case resolved to depth `k` of nested dictionary structs -/
 def copyLvl (C : Ctx) : Nat → AS → AS → AS × Up
   | 0 => copy0 { C := C, unshare := fun _ sh => (sh, .no) }
-  | k + 1 => copy0 { C := C, unshare := fun ty sh =>
-      let (o, u) := copyLvl C k (C.init ty) sh
-      (setUnmodRec o, u) }
+  | k + 1 => copy0 { C := C, unshare := unshareWith C (copyLvl C k) }
 
 /-- `CopyFrom` -/
 def Ctx.copy (C : Ctx) (dst src : AS) : AS × Up := copyLvl C (C.σ.defs.length + 1) dst src
 
-def Ctx.unshare (C : Ctx) (ty : Ty) (sh : AS) : AS × Up :=
-  let (o, u) := C.copy (C.init ty) sh
-  (setUnmodRec o, u)
+def Ctx.unshare (C : Ctx) (ty : Ty) (sh : AS) : AS × Up := unshareWith C C.copy ty sh
 
 /-! ## Clone (sources of CopyFrom that are clones of the destination)
 
